@@ -96,7 +96,8 @@ impl NormalFormQuery {
                         | EncodingType::NullableF64
                         | EncodingType::NullableStr
                 );
-            let indices = if limit < partition_range.len() / 2
+            let indices = if limit > 0
+                && limit < partition_range.len() / 2
                 && self.order_by.len() == 1
                 && !ranking.is_constant()
                 && top_n_supported
